@@ -462,7 +462,7 @@ func (p *RevProfile) cloneWorld(t *Tape, sc *RevScenario, o *World, k int) *Worl
 	w.SiblingLeaf = len(o.Certs) > 1 && !o.Certs[0].LongSerial && t.Bool(25)
 	keep := w.SiblingLeaf
 	for _, ocp := range o.Certs {
-		cp := &CertPlan{Pos: ocp.Pos, KeyKind: ocp.KeyKind, LongSerial: ocp.LongSerial, Serial: ocp.Serial, NoCRLSign: ocp.NoCRLSign, Freshest: ocp.Freshest}
+		cp := &CertPlan{Pos: ocp.Pos, KeyKind: ocp.KeyKind, LongSerial: ocp.LongSerial, Serial: ocp.Serial, NoCRLSign: ocp.NoCRLSign, SameName: ocp.SameName, Freshest: ocp.Freshest}
 		if w.SiblingLeaf && ocp.Pos == 0 {
 			cp.Serial = new(big.Int).Add(ocp.Serial, big.NewInt(5000))
 		}
@@ -585,6 +585,9 @@ func (p *RevProfile) genWorld(t *Tape, sc *RevScenario, id int) *World {
 		}
 		if pos > 0 {
 			cp.NoCRLSign = faulty && sc.Config >= 2 && t.Bool(6)
+		}
+		if pos > 0 && pos < n-1 {
+			cp.SameName = t.Bool(6)
 		}
 		root := pos == n-1
 		truth := t.Weighted(65, 20, 5, 10)
